@@ -154,17 +154,35 @@ Theorem C20_save_load_roundtrip :
   wf_path cwd -> is_abs cwd = true ->
   match a_path a with PStr _ => True | PPath s => is_abs (parse_path s) = true end ->
   match a_env a with Some (PPath _) => False | _ => True end ->
-  exists j, save (mk_project cwd a) = Some j /\ load cwd j = mk_project cwd a.
+  load cwd (save (mk_project cwd a)) = mk_project cwd a.
 Proof. exact save_load_roundtrip. Qed.
 Print Assumptions C20_save_load_roundtrip.
 
-(* in general the five settings always survive; the path comes back made absolute *)
+(* environment_path of any kind (since ba5f9c2 a pathlib.Path is saved as its str): path and the other
+   four settings survive unchanged, environment_path comes back as the str of what was given *)
+Theorem C20_save_load_roundtrip_any_environment_path :
+  forall cwd a,
+  wf_path cwd -> is_abs cwd = true ->
+  match a_path a with PStr _ => True | PPath s => is_abs (parse_path s) = true end ->
+  load cwd (save (mk_project cwd a)) =
+  set_env (option_map (fun x => PStr (arg_str x)) (a_env a)) (mk_project cwd a).
+Proof. exact save_load_roundtrip_any_env. Qed.
+Print Assumptions C20_save_load_roundtrip_any_environment_path.
+
+Theorem C20_loaded_environment_path_is_str_of_path_object :
+  forall cwd a s,
+  a_env a = Some (PPath s) ->
+  pr_env (load cwd (save (mk_project cwd a))) = Some (PStr (path_str (parse_path s))).
+Proof. exact loaded_env_of_path_object. Qed.
+Print Assumptions C20_loaded_environment_path_is_str_of_path_object.
+
+(* in general the settings always survive (environment_path as its str); the path comes back made absolute *)
 Theorem C20_save_load_general :
   forall cwd a,
   wf_path cwd ->
-  match a_env a with Some (PPath _) => False | _ => True end ->
-  exists j, save (mk_project cwd a) = Some j /\
-            load cwd j = set_path (absolute cwd (pr_path (mk_project cwd a))) (mk_project cwd a).
+  load cwd (save (mk_project cwd a)) =
+  set_env (option_map (fun x => PStr (arg_str x)) (a_env a))
+          (set_path (absolute cwd (pr_path (mk_project cwd a))) (mk_project cwd a)).
 Proof. exact save_load_general. Qed.
 Print Assumptions C20_save_load_general.
 
@@ -173,17 +191,22 @@ Print Assumptions C20_save_load_general.
 Theorem C20_roundtrip_relative_path_refuted :
   exists cwd a,
     wf_path cwd /\ is_abs cwd = true /\ a_env a = None /\
-    exists j, save (mk_project cwd a) = Some j /\
-              pr_path (load cwd j) <> pr_path (mk_project cwd a).
+    pr_path (load cwd (save (mk_project cwd a))) <> pr_path (mk_project cwd a).
 Proof. exact roundtrip_relative_path_refuted. Qed.
 Print Assumptions C20_roundtrip_relative_path_refuted.
 
-(* REFUTED clause (known finding C20-environment-path-object-save): environment_path given as a
-   pathlib.Path cannot be saved at all *)
-Theorem C20_roundtrip_environment_path_object_refuted :
-  forall cwd a s, a_env a = Some (PPath s) -> save (mk_project cwd a) = None.
-Proof. exact save_fails_on_path_object. Qed.
-Print Assumptions C20_roundtrip_environment_path_object_refuted.
+(* OLD behaviour, fixed by ba5f9c2 (finding C20-environment-path-object-save): `save_old` is the
+   transcription of save() before the fix; with environment_path given as a pathlib.Path it failed,
+   and wherever it succeeded it wrote what save writes now *)
+Theorem C20_old_save_failed_on_environment_path_object :
+  forall cwd a s, a_env a = Some (PPath s) -> save_old (mk_project cwd a) = None.
+Proof. exact save_old_failed_on_path_object. Qed.
+Print Assumptions C20_old_save_failed_on_environment_path_object.
+
+Theorem C20_old_save_agrees_where_it_succeeded :
+  forall p j, save_old p = Some j -> j = save p.
+Proof. exact save_old_agrees. Qed.
+Print Assumptions C20_old_save_agrees_where_it_succeeded.
 
 (* REFUTED clause (known finding C20-relative-path-no-ancestors): with a relative Path as project
    path the buffer's ancestor directories are not appended although the buffer is in the project *)
@@ -217,5 +240,12 @@ Example C20_example_roundtrip_hypotheses_satisfiable :
 Proof. split; [apply parse_wf|]. vm_compute. auto. Qed.
 
 Example C20_example_roundtrip :
-  option_map (load ex_cwd) (save (mk_project ex_cwd ex_args)) = Some (mk_project ex_cwd ex_args).
+  load ex_cwd (save (mk_project ex_cwd ex_args)) = mk_project ex_cwd ex_args.
+Proof. vm_compute. reflexivity. Qed.
+
+(* environment_path = Path("/x/") comes back as the str "/x" *)
+Example C20_example_environment_path_object :
+  pr_env (load ex_cwd (save (mk_project ex_cwd
+            (mkargs (PStr (ex_s [112])) (Some (PPath (ex_s [47;120;47]))) false None [] true)))) =
+  Some (PStr (ex_s [47;120])).
 Proof. vm_compute. reflexivity. Qed.
